@@ -57,6 +57,9 @@ static inline size_t varintBP128MaxBytes(size_t count) {
     if (remainder > 0) {
         bytes += 2 + remainder * 8; /* header + count + data */
     }
+    /* Leading varint: element count (64-bit format) or first value (delta
+     * formats), up to 9 bytes */
+    bytes += 9;
     return bytes;
 }
 
